@@ -1,10 +1,171 @@
+import TinsModel.Lookup.Model
+import TinsModel.Lookup.Spec
+import TinsModel.Gen.PduClasses
 import Driver.Util
-/- line-protocol driver for property C13 (stub until the area is built) -/
-namespace Driver.C13
-open Driver
+import Std.Data.HashMap
+/- line-protocol driver for C13 (look-up and casts): model mode and spec (oracle) mode.
 
-def step (st : Unit) (_line : String) : Unit × String := (st, "unimplemented")
-def specStep (st : Unit) (_line : String) : Unit × String := (st, "unimplemented")
+   ops:  row <K> | pair <K> <T> | chain <K1,..,Kn> <T> | ser <K1,..,Kn> | counts
+   model mode prints what the code-shaped model (TinsModel/Lookup/Model.lean over the generated table) predicts the
+   harness prints; spec mode reads `<op> ||| <implementation output>` and judges the implementation's own answers
+   against the property (a successful look-up must point at an object that really is a T — `dyn`/`isa` come from
+   dynamic_cast in the harness — and an exact-class search must succeed). -/
+namespace Driver.C13
+open Tins.Lookup Tins.Gen.PduClasses Driver
+
+def tbl : Table := classes
+
+def nameMap : Std.HashMap String Nat :=
+  (tbl.zipIdx).foldl (fun m (r, i) => m.insert r.name i) {}
+
+def idxOf (n : String) : Option Nat := nameMap[n]?
+
+/-- distinct enumerator values in ascending order, plus one user-defined value (the harness probes the same list) -/
+def probeFlags : List Nat :=
+  let vs := (pduTypeEnum.map (·.2)) ++ [1001]
+  let sorted := vs.foldl (fun acc v =>
+    if acc.contains v then acc else
+    let (lo, hi) := acc.partition (· < v)
+    lo ++ [v] ++ hi) []
+  sorted
+
+def showOpt (o : Option Nat) : String := match o with | some v => toString v | none => "?"
+def bit (b : Bool) : String := if b then "1" else "0"
+def showB (o : Option Bool) : String := match o with | some b => bit b | none => "?"
+
+def parseChain (s : String) : Option (List Nat) := (s.splitOn ",").mapM idxOf
+
+def rowLine (K : Nat) : String :=
+  let ask := askableB tbl K
+  let conc := concreteB tbl K
+  if !ask && !conc then "bad-op" else
+  let flag := if ask then showOpt (staticFlag tbl K) else "-"
+  if !conc then s!"row flag={flag} abstract=1 type=- acc=-" else
+  let acc := probeFlags.filterMap (fun f => match matchesFlag tbl K f with
+    | some true => some (toString f)
+    | some false => none
+    | none => some s!"?{f}")
+  s!"row flag={flag} abstract=0 type={showOpt (pduType tbl K)} acc={if acc.isEmpty then "-" else joinWith "," acc}"
+
+def pairLine (K T : Nat) : String :=
+  if !concreteB tbl K || !askableB tbl T then "bad-op" else
+  let find := findPdu1 tbl K T
+  let cast := tinsCast tbl K T
+  let ptr := match find with | some true => "same" | some false => "null" | none => "?"
+  let rfind := match find with | some true => "ok" | some false => "pdu_not_found" | none => "?"
+  let rcast := match tinsCastRef tbl K T with
+    | some (.ok _) => "ok" | some (.error _) => "bad_tins_cast" | none => "?"
+  s!"pair find={showB find} ptr={ptr} cfind={showB find} rfind={rfind} cast={showB cast} rcast={rcast} dyn={bit (isAB tbl K T)} exact={bit (K == T)}"
+
+def chainLine (chain : List Nat) (T : Nat) : String :=
+  if !(chain.all (concreteB tbl)) || chain.isEmpty || !askableB tbl T then "bad-op" else
+  match staticFlag tbl T with
+  | none => "chain find=?"
+  | some f =>
+    let r := findPduChain tbl f chain
+    let find := match r with | some i => toString i | none => "none"
+    let rfind := match rfindPduChain tbl f chain with | .ok _ => "ok" | .error _ => "pdu_not_found"
+    let isa := String.join (chain.map (fun K => bit (isAB tbl K T)))
+    let exact := String.join (chain.map (fun K => bit (K == T)))
+    s!"chain find={find} rfind={rfind} isa={isa} exact={exact} links=1"
+
+def step (st : Unit) (line : String) : Unit × String :=
+  match words line with
+  | ["row", k] => match idxOf k with
+    | some K => (st, rowLine K)
+    | none => (st, "bad-op")
+  | ["pair", k, t] => match idxOf k, idxOf t with
+    | some K, some T => (st, pairLine K T)
+    | _, _ => (st, "bad-op")
+  | ["chain", ks, t] => match parseChain ks, idxOf t with
+    | some c, some T => (st, chainLine c T)
+    | _, _ => (st, "bad-op")
+  | ["ser", ks] => match parseChain ks with
+    | some c => (st, if c.all (concreteB tbl) && !c.isEmpty then "ser ok" else "bad-op")
+    | none => (st, "bad-op")
+  | ["counts"] =>
+    let k := ((List.range tbl.length).filter (concreteB tbl)).length
+    let t := ((List.range tbl.length).filter (askableB tbl)).length
+    (st, s!"counts K={k} T={t} classes={tbl.length}")
+  | _ => (st, "bad-op")
+
+/-! ### oracle -/
+
+def kv (ws : List String) (key : String) : Option String :=
+  ws.findSome? (fun w => if w.startsWith (key ++ "=") then some ((w.drop (key.length + 1)).toString) else none)
+
+def isWrapperName (n : String) : Bool := n.startsWith "PDUCacher<"
+
+def unwrapName (n : String) : String :=
+  if isWrapperName n && n.endsWith ">" then ((n.drop 10).dropEnd 1).toString else n
+
+/-- label of a soundness violation: is it explained by the wrapper forwarding the wrapped class's identity? -/
+def soundClause (k t : String) : String :=
+  if isWrapperName k || isWrapperName t then
+    match idxOf (unwrapName k), idxOf (unwrapName t) with
+    | some K, some T => if isAB tbl K T then "sound-wrapper-forwarding" else "sound"
+    | _, _ => "sound"
+  else "sound"
+
+def bitsOf (s : String) : List Bool := s.toList.map (· == '1')
+
+def specStep (st : Unit) (line : String) : Unit × String :=
+  match line.splitOn " ||| " with
+  | [op, out] =>
+    let ow := words out
+    if out.startsWith "FAULT" || out.startsWith "SKIP" || out.startsWith "throw" || out.startsWith "bad-op" then
+      (st, "unspecified") else
+    match words op with
+    | ["row", _] =>
+      match kv ow "flag", kv ow "abstract", kv ow "acc" with
+      | some f, some a, some acc =>
+        if a == "1" || f == "-" then (st, "ok")
+        else if (acc.splitOn ",").contains f then (st, "ok")
+        else (st, s!"violates self-flag flag={f} acc={acc}")
+      | _, _, _ => (st, "violates unparsable-output")
+    | ["pair", k, t] =>
+      match kv ow "find", kv ow "cast", kv ow "dyn", kv ow "exact", kv ow "rfind", kv ow "rcast", kv ow "cfind", kv ow "ptr" with
+      | some find, some cast, some dyn, some exact, some rfind, some rcast, some cfind, some ptr =>
+        let found := find == "1"
+        let casted := cast == "1"
+        if !(soundOutcome found casted (dyn == "1")) then
+          let via := if found && casted then "both" else if found then "find" else "cast"
+          (st, s!"violates {soundClause k t} K={k} T={t} via={via}")
+        else if !(selfOutcome (exact == "1") found) then (st, s!"violates self K={k}")
+        else if (rfind == "ok") != found || (rcast == "ok") != casted || (cfind == "1") != found
+             || (ptr == "same") != found || (ptr == "null") == found then
+          (st, s!"violates helpers-consistent K={k} T={t}")
+        else (st, "ok")
+      | _, _, _, _, _, _, _, _ => (st, "violates unparsable-output")
+    | ["chain", ks, t] =>
+      match kv ow "find", kv ow "isa", kv ow "exact", kv ow "rfind", kv ow "links" with
+      | some find, some isa, some exact, some rfind, some links =>
+        if links != "1" then (st, "unspecified") else
+        let isaB := bitsOf isa
+        let exB := bitsOf exact
+        let names := ks.splitOn ","
+        let firstExact := exB.findIdx? (· == true)
+        if find == "outside" then (st, "violates sound-outside-chain")
+        else
+        let fi := find.toNat?
+        let soundOk := match fi with
+          | some i => isaB.getD i false
+          | none => true
+        if !soundOk then
+          (st, s!"violates {soundClause (names.getD (fi.getD 0) "?") t} K={names.getD (fi.getD 0) "?"} T={t} via=find at={fi.getD 0}")
+        else
+        let selfOk := match firstExact with
+          | some j => (match fi with | some i => decide (i ≤ j) | none => false)
+          | none => true
+        if !selfOk then (st, s!"violates self T={t}")
+        else if (rfind == "ok") != fi.isSome then (st, s!"violates helpers-consistent T={t}")
+        else (st, "ok")
+      | _, _, _, _, _ => (st, "violates unparsable-output")
+    | ["ser", _] => (st, "ok")
+    | ["counts"] => (st, "ok")
+    | _ => (st, "unspecified")
+  | _ => (st, "bad-line")
+
 def initModel : Unit := ()
 def initSpec : Unit := ()
 
